@@ -22,7 +22,7 @@ class Check(PropertyCheck):
     QUICK_N = 300
 
     def make_impl(self, scenario):
-        if scenario.meta.get("kind") == "env":
+        if scenario.meta.get("kind") in ("env", "multi"):
             from impl_ext import ImplEnv
             return ImplEnv(filter_style=scenario.meta.get("filter_style", "callable"))
         from impl_ext import ImplWorld
@@ -30,7 +30,34 @@ class Check(PropertyCheck):
 
     def generate(self, rng, n, tier):
         for i in range(n):
+            if i % 12 == 11:
+                yield self.multi_scenario(rng)
+                continue
             yield self.env_scenario(rng) if i % 6 == 5 else self.scenario(rng, tier)
+
+    def multi_scenario(self, rng: random.Random) -> Scenario:
+        """The multi-instance environment: every episode has its own dispatcher; its reward function may be replaced at the
+        start of an episode; the reward of a step is the reward emitted for that step by the CURRENT reward function."""
+        j1, m1 = rng.randint(1, 3), rng.randint(1, 3)
+        j2, m2 = j1 + rng.randint(0, 1), m1 + rng.randint(0, 1)
+        d1 = rng.randint(0, 3)
+        params = " ".join(map(str, [j1, j2, m1, m2, d1, d1 + rng.randint(0, 6), 1, 0, 1, 1]))
+        rw = rng.choice(["makespan", "idle"])
+        b = rng.choice(["disjunctive", "agent_task", "agent_task_jobs", "complete_agent_task"])
+        draws = [rng.randint(0, 60) for _ in range(400)]
+        f = gen.gen_filter(rng)
+        lines = ["new", gen.filter_line(f), "menv " + " ; ".join([params, f"{b} 1 1 {rw} 1", "is_ready -", " ".join(map(str, draws))])]
+        n_acc = 0
+        for ep in range(rng.randint(2, 4)):
+            lines.append("mreset")
+            if rng.random() < 0.5:
+                lines.append("mswap " + rng.choice(["makespan_reward", "idle_reward"]))
+            for _ in range(rng.randint(1, j2 * m2)):
+                lines.append(f"mauto {rng.randint(0, 50)}")
+                n_acc += 1
+        return Scenario(lines, {"kind": "multi", "family": "generated", "reward": rw, "accepted": n_acc,
+                                "filter": "none" if f is None else "+".join(f) or "empty-composite", "flexible": False,
+                                "filter_style": rng.choice(["callable", "enum", "str"])})
 
     def env_scenario(self, rng: random.Random) -> Scenario:
         """The last clause: the reward an environment step returns is the reward emitted for THAT step - also when the
@@ -109,7 +136,7 @@ class Check(PropertyCheck):
         return Scenario(lines, meta)
 
     def nontrivial(self, scenario, outs):
-        if scenario.meta.get("kind") == "env":
+        if scenario.meta.get("kind") in ("env", "multi"):
             return scenario.meta.get("accepted", 0) >= 3
         interesting = any(" 0 " in (" " + o.split("makespan_reward")[1].split("||")[0] + " ") for l, o in
                           zip(scenario.lines, outs) if l == "wsnap" and "makespan_reward" in o)
@@ -117,6 +144,22 @@ class Check(PropertyCheck):
 
     def oracle(self, impl, scenario, index, line, out, ctx):
         res = []
+        if scenario.meta.get("kind") == "multi":
+            if line.startswith("mauto") and not out.endswith("raise") and out.startswith("act "):
+                _, reward, _, _, _ = impl.last_step
+                rf = impl.menv.reward_function
+                emitted = rf.rewards
+                if not emitted or reward != emitted[-1]:
+                    res.append(("step-reward", f"`{line}` returned reward {reward}, the reward emitted for that step is "
+                                f"{emitted[-1] if emitted else None} (all rewards of the episode: {emitted})"))
+                lists = impl.menv.dispatcher.schedule.schedule
+                n = sum(len(ms) for ms in lists)
+                mk = max((x.end_time for ms in lists for x in ms), default=0)
+                idle = sum((ms[-1].end_time - sum(x.operation.duration for x in ms)) for ms in lists if ms)
+                want = -mk if type(rf).__name__ == "MakespanReward" else -idle
+                if len(emitted) != n or sum(emitted) != want or any(r > 0 for r in emitted):
+                    res.append(("env-sum", f"after `{line}`: {type(rf).__name__} rewards {emitted} for {n} dispatches, expected sum {want}"))
+            return res
         if scenario.meta.get("kind") == "env":
             if line.startswith("estep") and out != "raise":
                 _, reward, _, _, _ = impl.last_step
